@@ -19,6 +19,7 @@
 
 using namespace vf;
 
+static std::set<std::string> g_known;
 static std::string g_casefile_dir;
 static std::string g_current_text;
 
@@ -54,6 +55,7 @@ int main(int argc, char **argv) {
     else if (a == "--out") out = next();
     else if (a == "--budget") budget = atof(next().c_str());
     else if (a == "--maxsize") maxsize = atoi(next().c_str());
+    else if (a == "--known") { std::string k = next(); size_t p = 0; while (p <= k.size()) { size_t q = k.find(',', p); if (q == std::string::npos) q = k.size(); if (q > p) g_known.insert(k.substr(p, q - p)); p = q + 1; } }
     else if (a == "-v") verbose = true;
   }
   signal(SIGPIPE, SIG_IGN);
@@ -67,11 +69,14 @@ int main(int argc, char **argv) {
     if (!read_file(replay, text)) { fprintf(stderr, "cannot read %s\n", replay.c_str()); return 2; }
     g_current_text = text;
     HistRunner r(&rep);
+    r.known = g_known;
     r.verbose = verbose;
     Case c = parse_case(text);
     Failure f;
     if (!r.run(c, &f)) {
-      printf("FAIL property=%s op=%d msg=%s\n", f.prop.c_str(), f.op_index, f.msg.c_str());
+      std::string pr = f.prop, sg;
+      if (pr.find(':') != std::string::npos) { sg = " sig=" + pr.substr(pr.find(':') + 1); pr = pr.substr(0, pr.find(':')); }
+      printf("FAIL property=%s op=%d%s msg=%s\n", pr.c_str(), f.op_index, sg.c_str(), f.msg.c_str());
       rc = 3;
     } else {
       printf("PASS ops=%zu\n", c.ops.size());
@@ -93,6 +98,7 @@ int main(int argc, char **argv) {
     if (!out.empty()) write_file(out + sfmt("/w%d.current.case", worker), text);
     Case c = parse_case(text);
     HistRunner r(&rep);
+    r.known = g_known;
     Failure f;
     bool ok = r.run(c, &f);
     done++;
@@ -100,7 +106,9 @@ int main(int argc, char **argv) {
     if (!ok) {
       std::string fn = out.empty() ? std::string("failing.case") : out + sfmt("/w%d.failing.case", worker);
       write_file(fn, text);
-      printf("FAIL property=%s op=%d case=%s msg=%s\n", f.prop.c_str(), f.op_index, fn.c_str(), f.msg.c_str());
+      std::string pr = f.prop, sg;
+      if (pr.find(':') != std::string::npos) { sg = " sig=" + pr.substr(pr.find(':') + 1); pr = pr.substr(0, pr.find(':')); }
+      printf("FAIL property=%s op=%d case=%s%s msg=%s\n", pr.c_str(), f.op_index, fn.c_str(), sg.c_str(), f.msg.c_str());
       rc = 3;
       break;
     }
